@@ -590,6 +590,16 @@ func judgeUBV(name string, t elemT, A, M, U, V *la.Mat, cu, cv bool, m, n, ub in
 	if U != nil && V != nil {
 		c.le("reconstruct", fmt.Sprintf("max|U*%s*V^T - A|", name), maxAbsDiff(la.MulNaive(la.MulNaive(U, M), V.T()), A), tol)
 	}
+	// only one outer factor requested: it must still be the factor of A, not just any orthogonal matrix.
+	// A = U*M*V^T + E, max|E| <= tol, implies U^T*(A*A^T)*U = M*M^T up to (2k+1)*tol*|A|_F entrywise (k the inner dimension)
+	if U != nil && V == nil {
+		lhs := la.MulNaive(la.MulNaive(U.T(), la.MulNaive(A, A.T())), U)
+		c.le("reconstruct", fmt.Sprintf("max|U^T*A*A^T*U - %s*%s^T| (ComputeU only)", name, name), maxAbsDiff(lhs, la.MulNaive(M, M.T())), (2*float64(n)+1)*tol*nrm)
+	}
+	if V != nil && U == nil {
+		lhs := la.MulNaive(la.MulNaive(V.T(), la.MulNaive(A.T(), A)), V)
+		c.le("reconstruct", fmt.Sprintf("max|V^T*A^T*A*V - %s^T*%s| (ComputeV only)", name, name), maxAbsDiff(lhs, la.MulNaive(M.T(), M)), (2*float64(m)+1)*tol*nrm)
+	}
 	return c.verdict()
 }
 
